@@ -41,10 +41,18 @@ func TestC39(t *testing.T) {
 		"B: key (Ed25519/ECDSA from the case PRNG, RSA from a per-process pool) × comment × passphrase class → Marshal → ssh-keygen -y/-p. " +
 		"C: class = c39Classes[i mod len] × protection {none, aes256-ctr, aes256-cbc} = (i/len) mod 3; one inconsistency per class, fresh keys per case. " +
 		"D: key size as a dimension: RSA moduli {1024,1025,1535,(1536),2047,2048,2049,3071,(3072,4095,4096)} from ssh-keygen -b and crypto/rsa.GenerateKey, hand-built keys from primes of unequal length, ECDSA P-256/384/521, through openssh/PEM/PKCS#8 forms written by ssh-keygen, the package, the standard library and the harness encoder. " +
+		"conc-parse: one PEM/passphrase, one parsed signer and one private key shared by 4-6 goroutines (parsers, SignWithAlgorithm, MarshalPrivateKey at once; also under GOMAXPROCS(1)); expected results precomputed single-threaded, verdicts after the join; interleavings are scheduler-chosen, the verif,race variant adds the race detector. " +
 		"distinct = (stream, key type, cipher/class, passphrase class, outcome); non-trivial = reached a parser verdict that an oracle judged")
 	m.Assume("ssh-keygen (OpenSSH 9.2) is a correct writer/reader of PROTOCOL.key; h/ref/sshkeyfmt (own codec + PKCS#1 arithmetic, validated against ssh-keygen, openssl and real-token vectors in its unit tests); crypto/ecdsa, crypto/ed25519, math/big of the standard library")
 	m.Assume("harness-built encrypted files use the repository's bcrypt_pbkdf through the verif hook only to BUILD inputs; ssh-keygen is sampled on the encrypted control files as a cross-check")
 	m.Note("RSA keys come from crypto/rand (ssh-keygen's and Go's key generation ignore caller entropy): the key material is not a function of VERIF_SEED, the case class is; every witness carries the complete file")
+	nX := len(concParseTypes) * len(concParseModes) * 2 * m.N(1, 4)
+	if mon.RaceBuild {
+		// race-detector variant: only the shared-value concurrency stream
+		m.Cases("conc-parse", nX, (&c39{m: m}).concCase)
+		c39ConcGates(m, nX)
+		return
+	}
 	if !haveTool("ssh-keygen") {
 		m.Inconclusive("ssh-keygen not installed: the round-trip oracle is unavailable")
 		return
@@ -65,6 +73,8 @@ func TestC39(t *testing.T) {
 	m.Cases("inconsistent", nC, h.inconsistent)
 	nD := len(sizeCases(m.Thorough())) * m.N(1, 3)
 	m.Cases("key-size", nD, h.keySizes)
+	m.Cases("conc-parse", nX, h.concCase)
+	c39ConcGates(m, nX)
 
 	m.Gate("A_same_key", nA/4, "ssh-keygen-written keys (supported type and cipher) parsed and compared with the .pub key")
 	m.Gate("A_wrong_passphrase_judged", nA/8, "wrong passphrases tried on ssh-keygen-encrypted keys")
